@@ -145,11 +145,16 @@ class Recon:
         e2 = dict(env)
         gens = []
         filters = []
-        for g in n.generators:
+        depth = env.get('__compdepth__', 0)
+        e2['__compdepth__'] = depth + 1
+        for gi, g in enumerate(n.generators):
             it = self.ex(g.iter, e2)
+            k = 0
             for tn in ast.walk(g.target):
                 if isinstance(tn, ast.Name):
-                    e2[tn.id] = ('loopvar', tn.id, it)
+                    # bound variables are named by position, not by spelling
+                    e2[tn.id] = ('loopvar', f'#comp{depth}.{gi}.{k}', it)
+                    k += 1
             gens.append(it)
             for cond in g.ifs:
                 filters.append(self.ex(cond, e2))
